@@ -35,6 +35,36 @@ CHECKS = {
    text="Every image length 0..600 and every length within +-17 of each 64 KiB boundary up to the largest flash in the device table, three content patterns (a position hash exposes any misplaced byte), both writers, the other image empty and non-empty; each file must consist solely of well-formed 00/01/02/04 records with valid checksums, one EOF last, and decode to exactly the image.",
    note="Trusted: ihex::decode (self-checked on the vectors pinned in the repository's writer tests and on seven kinds of malformed file). Files are written under /verif/.scratch and removed.",
    ref="3/C07"),
+ "C08": dict(cat="model_checking", engine="E2",
+   technique="explicit-state exploration (stateright BFS) of the conditional-assembly stack machine + conformance replay of every trace in P.Sigma^<=k on the real build_str, three-way oracle",
+   text="The reference stack machine (frames of parent/taken/active/else_seen) is explored with deduplication; every trace of state cover x all enabled directive sequences of length <= k (19 actions: .if/.ifdef/.ifndef/#-spellings with true and false conditions on literals, .equ constants and .define flags, .elif, .else, .endif, conditions that must not be evaluated) is rendered with observable payloads in selected arms and rotating poison (invalid text, .error, duplicate label, undefined symbol, missing include, shadowing .equ, .device, .define) in unselected ones; result(program) must equal result(program with unselected lines deleted) and the model image and message markers.",
+   note="Trusted: the stack machine of DESIGN.md appendix C, the ISA reference for ldi. Bounds: N1 = 6 / 9, k = 3 / 4, nesting <= 3 / 4. Well-formed structure only.",
+   ref="3/C08"),
+ "C09": dict(cat="model_checking", engine="E2",
+   technique="explicit-state exploration (stateright BFS) of a macro-table model + conformance replay of P.Sigma^<=k: build(macro program) == build(hand-expanded program)",
+   text="Actions are definitions (10 macro families: expression round trip, @n inside a larger expression, registers and pointer forms, displacement expressions, ten parameters, three-level nesting with swapped/extended arguments, conditionals on parameters, bodies that switch to dseg/eseg and back) in three letter cases, calls with argument sets covering every binary operator at top level, parenthesised sub-expressions, unary forms, functions, radix and char literals, calls before the definition, calls of undefined macros and calls omitting a used argument. The harness expands every call semantically (expression arguments by value) and both programs are built by the real assembler and compared on both images and ram_filling; Err iff the model says the call is invalid.",
+   note="Trusted: the harness's expander and exprm::render. Where @n sits inside a larger expression only atomic / fully parenthesised arguments are used so that textual and value substitution agree. Bounds: N1 = 2 / 3, k = 2.",
+   ref="3/C09"),
+ "C10": dict(cat="model_checking", engine="E2+E3",
+   technique="explicit-state exploration (stateright BFS) of the symbol-table model + conformance replay of P.Sigma^<=k, plus every single-definition deletion and label duplication of each building trace",
+   text="The symtab model (labels and .equ program-wide, .set = latest preceding assignment, .def visible until .undef, all names compared lower-cased) predicts the image or a failure for every sequence of 66 actions (define / redefine / undefine / use from instructions and data, each occurrence in lower, UPPER or Mixed case, uses before definitions); all traces of state cover x Sigma^<=2 are built by the real assembler, and for every trace that builds, each single deletion of a defining line and each duplication of a label line (in each case) is built and compared with the model too.",
+   note="Trusted: the symtab model of DESIGN.md appendix C; ISA reference for ldi/mov. Disjoint name pools; .equ redefinition, .def of a bound alias and .undef of an unbound name are not pinned and never generated. Bounds: N1 = 4 / 5, k = 2.",
+   ref="3/C10"),
+ "C11": dict(cat="exploration", engine="E2 (configuration enumeration)",
+   technique="bounded-exhaustive enumeration of file-tree configurations (real directory trees) against build_str of the flattened text",
+   text="4 base programs with cross-boundary dependencies x every way of cutting contiguous unit blocks into <= 2 (3) include files (one include, nested, siblings) x every location kind per include edge (same directory, sub-directory in the path, caller-supplied directory, relative and absolute .includepath in the includer, .includepath inside a previously included file, absolute path, nowhere) x .exit at the end of the innermost file, plus a subset with the main file given relative to the current directory. build_file on the real tree must equal build_str of the harness's flattening (images, sizes, ram_filling, message markers and order); a file that exists nowhere must fail with an error naming it.",
+   note="Trusted: the harness's flattening of the virtual file tree. Every file name is unique, so precedence among several hits is never exercised; files are cut only at unit boundaries. Claimed as exploration (a configuration space, not a transition system): DESIGN.md section 9 is updated accordingly.",
+   ref="3/C11"),
+ "C14": dict(cat="exploration", engine="E3",
+   technique="deviation-bounded metamorphic exploration: every meaning-free rewrite site singly (distance 1), every rewrite group globally, all 2^k group combinations, thorough all pairs of sites",
+   text="On a corpus covering every construct of the grammar plus programs rendered from the C08/C10 models, the harness's lexer finds every site of 28 rewrite kinds (trailing ; // /* */ comments added and removed, comment-only and blank lines, spaces<->tabs and extra blanks, blanks around commas, binary operators, inside parentheses and before comments, CRLF, letter case of mnemonics, registers, function names, symbol references and hex digits, radix respelling among decimal/$/0x/0b/octal/char). Each rewritten program is built by the real assembler and must give identical images, sizes, ram_filling and messages.",
+   note="Trusted: the harness lexer (round-trip checked on every program); the unrewritten build is the reference. Sites the statement does not list are not rewritten (directive case, leading indentation, blanks inside pointer forms or after unary operators, upper-case radix prefixes, macro names, .define flags).",
+   ref="3/C14"),
+ "C15": dict(cat="exploration", engine="E3",
+   technique="deviation-bounded fault injection: every corpus program x every live line position x 17 single-line fault kinds; all 4^5 message placements",
+   text="Each fault (syntax error, unknown mnemonic, wrong register class, wrong operand kind, immediate and branch out of range, missing operand, undefined symbol in an instruction / .db / .dw / .set / .if, duplicate label, .db and .dw value out of range, unknown directive, .error) is inserted as one line at every live position of every corpus program; the build must fail and the error text must contain that line's number as a decimal token. All 1024 placements of nothing/.message/.warning/.error over five slots of a conditional skeleton decide: .error fails wherever assembled (naming its line), messages never change the image and are listed in source order with their own line numbers.",
+   note="Trusted: the lexer's liveness/segment context and the decimal token match (lines are shifted by 700 comment lines, away from every literal of the corpus).",
+   ref="3/C15"),
  "C12": dict(cat="exploration", engine="E1",
    technique="exhaustive enumeration of (device row x memory x {capacity-1, capacity, capacity+1} x way of reaching it) and of the shipped part-definition files' declared figures",
    text="Every row of the device table and 'no device' x flash/EEPROM/RAM x one below, at and one above capacity x every way of getting there (.org+item, data blocks, a two-word instruction ending at the limit, .byte n, interleaved segments): Ok, Ok, Err, with ram_filling = data extent and the reported sizes = the row. Every includes/*def.inc is read by the harness's own reader and its four #pragma AVRPART MEMORY figures are compared with what the tool reports/enforces for that device. Unknown and second .device must fail.",
